@@ -58,6 +58,35 @@ CLAIMED = {
              "utils.build_and_validate_headers.",
         technique="Coq proof by symbolic execution of the monadic stream model + in-Coq differential correspondence",
     ),
+    "C10": dict(
+        text="Coq theorems about WebsocketBuffer and WSStream._handle_events: reassembly is exact for every message "
+             "sequence and every fragmentation with pings in between, every ping is answered with its payload, the "
+             "stream automaton realises this for any split into network reads while no message exceeds the limit, the "
+             "fragment crossing the limit is answered 1009 and nothing is ever delivered afterwards. Tied to the code by "
+             "call-by-call differential execution of the real WSStream and an end-to-end oracle with a real wsproto "
+             "client over both carriers, with and without permessage-deflate.",
+        design="7/C10",
+        note="Trusted: Coq kernel + vm_compute, harness (streams.py, wsrig.py, sched.py, c10.py). wsproto's frame codec, "
+             "UTF-8 decoding and permessage-deflate are not modelled (the model consumes wsproto's event stream); a "
+             "wsproto 1.3.2 defect with control frames inside compressed fragmented messages is documented in DESIGN.md. "
+             "Modelled not verified: ws_stream.py.",
+        technique="Coq proof (induction over event / fragment lists) + in-Coq differential correspondence",
+    ),
+    "C11": dict(
+        text="Coq theorems about Handshake and WSStream: validity is characterised exactly (HTTP/1.1 with key, "
+             "Connection token upgrade, Upgrade websocket, version 13; or extended CONNECT with version 13; never "
+             "HTTP/1.0), a request leads to 404/400 with no application or to exactly one application whose first message "
+             "is websocket.connect, accept is rendered faithfully (status by carrier, token iff key, only an offered "
+             "subprotocol, extra headers in order, no pseudo / sec-websocket-protocol extras), and the disconnect code is "
+             "1000 / the client's code / 1006, delivered exactly once. Tied to the code by call-by-call differential "
+             "execution of the real WSStream and an RFC 6455/8441 oracle over raw upgrade requests x application "
+             "decisions x closing orders on both carriers with independent h11/h2/wsproto clients.",
+        design="7/C11",
+        note="Trusted: Coq kernel + vm_compute, harness (streams.py, wsrig.py, sched.py, c11.py). The accept token "
+             "(SHA-1/base64) and extension negotiation are wsproto's: the model takes them as parameters and the harness "
+             "checks the token with an independent computation. Modelled not verified: ws_stream.py.",
+        technique="Coq proof (case analysis / symbolic execution of the monadic model) + in-Coq differential correspondence",
+    ),
 }
 NOT_APPLICABLE = {}
 PENDING_REASON = "check not built yet in this session (planned: Coq model + proof + correspondence, see DESIGN.md section 7)"
